@@ -112,6 +112,10 @@ func (c20) Generate(seed uint64, tier string, index int) any {
 		}
 		for i := range sc.Keys {
 			sc.Sessions = append(sc.Sessions, C20Session{Key: i, Op: "daemon", Cmd: c20DaemonCmds[0]})
+			if g.R.Intn(3) == 0 {
+				// degenerate command lines from an (admitted or not) key: the daemon must survive them
+				sc.Sessions = append(sc.Sessions, C20Session{Key: i, Op: "exec", Cmd: []string{"", "   ", "''", "rsync --version", "rsync --server --daemon -h"}[g.R.Intn(5)]})
+			}
 		}
 	} else {
 		sc.Keys = []C20Key{{Type: c20KeyTypes[g.R.Intn(len(c20KeyTypes))]}}
@@ -326,7 +330,9 @@ func (c20) Run(t *testing.T, scenario any, job *Job, res *Result) {
 				res.Violate("key-admission", sig+":"+sc.Keys[s.Key].Type, fmt.Sprintf("%s: handshake error=%v, key listed=%v\nauthorized_keys:\n%s\ndaemon log: %s", desc, r.handshakeErr, want, ak.String(), tail(daemonLog.String(), 600)))
 				return
 			}
-			if got {
+			if got && s.Op != "daemon" {
+				res.Probe("auth_degenerate_execs_survived", 1) // the worker being alive is the oracle
+			} else if got {
 				res.Probe("keys_admitted", 1)
 				if len(r.listing) == 0 || !strings.Contains(strings.Join(r.listing, "\n"), "pub") {
 					res.Violate("daemon-over-ssh", "no-module-listing", fmt.Sprintf("%s: admitted, but the daemon invocation did not return the module listing (%q, status %q, stdout %q)", desc, r.listing, r.status, r.stdout))
